@@ -66,8 +66,10 @@ def encode(fn, s):
     m.cf_role = "mesh_topology"
     m.long_name = "a mesh"
     faces, edges = s.get("faces"), s.get("edges")
-    m.topology_dimension = np.int32(2 if faces else 1)
-    m.node_coordinates = "node_x node_y"
+    raw = s.get("raw") or {}
+    m.topology_dimension = np.int32(raw.get("topdim", 2 if faces else 1))
+    if not raw.get("drop_node_coords"):
+        m.node_coordinates = "node_x node_y"
     xs, ys = s["coords"]
     x = nc.createVariable("node_x", "f8", ("nNodes",))
     x.standard_name = "longitude"
@@ -82,7 +84,6 @@ def encode(fn, s):
     pad = s.get("pad", 0)
     si, tr = s["si"], s["tr"]
     si_attr = s.get("si_attr", True)
-    raw = s.get("raw") or {}
     if faces:
         w = max([len(f) for f in faces] + [1]) + pad
         nc.createDimension("nFaces", len(faces))
@@ -96,14 +97,21 @@ def encode(fn, s):
             m.face_node_connectivity = "face_nodes"
         else:
             m.face_node_connectivity = "no_such_variable"
-        if tr["face"] or tr.get("ff") or s.get("dim_attr"):
+        if raw.get("face_dimension"):
+            m.face_dimension = raw["face_dimension"]
+        elif tr["face"] or tr.get("ff") or s.get("dim_attr"):
             m.face_dimension = "nFaces"
         ff = s.get("face_face")
         if ff is not None:
             w2 = max([len(r) for r in ff] + [1])
             nc.createDimension("nMaxFaceFaces", w2)
             arr = ragged(ff, w2, si["ff"], dtype)
-            put_conn(nc, "face_links", arr, "nFaces", "nMaxFaceFaces", tr.get("ff", False),
+            ffdim = "nFaces"
+            if raw.get("ff_other_dim"):
+                nc.createDimension("nOther", len(faces) + 2)
+                ffdim = "nOther"
+                arr = ragged(ff + [[], []], w2, si["ff"], dtype)
+            put_conn(nc, "face_links", arr, ffdim, "nMaxFaceFaces", tr.get("ff", False),
                      "face_face_connectivity", si["ff"], si_attr, dtype, fill)
             m.face_face_connectivity = "face_links"
         fe = s.get("face_edge")
@@ -139,7 +147,7 @@ def encode(fn, s):
                      si["edge"], si_attr, dtype, fill)
             m.edge_face_connectivity = "edge_faces"
         if s.get("edge_coords"):
-            m.edge_coordinates = "edge_x edge_y"
+            m.edge_coordinates = "edge_x" if raw.get("edge_coord_one") else "edge_x edge_y"
             for nm, std, un in (("edge_x", "longitude", "degrees_east"), ("edge_y", "latitude", "degrees_north")):
                 v = nc.createVariable(nm, "f8", ("nEdges",))
                 v.standard_name = std
@@ -155,6 +163,28 @@ def encode(fn, s):
         d.mesh = "mesh"
         d.location = raw.get("location_attr", loc)
         d[:] = np.arange(len(nc.dimensions[dims[loc]]), dtype=float)
+    if s.get("mesh2"):
+        # a second mesh topology variable with its own node coordinates that shares the
+        # connectivity variables of the first
+        m2 = nc.createVariable("mesh2", "i4", ())
+        for k in m.ncattrs():
+            m2.setncattr(k, m.getncattr(k))
+        m2.long_name = "a second mesh"
+        m2.node_coordinates = "node_x2 node_y2"
+        for nm, std, un, cs in (("node_x2", "longitude", "degrees_east", xs), ("node_y2", "latitude", "degrees_north", ys)):
+            v = nc.createVariable(nm, "f8", ("nNodes",))
+            v.standard_name = std
+            v.units = un
+            v[:] = np.array(cs, dtype=float) + 1000
+        for loc in s.get("locs", ["node", "edge", "face"]):
+            if dims[loc] not in nc.dimensions:
+                continue
+            d = nc.createVariable("data2_" + loc, "f8", (dims[loc],))
+            d.standard_name = "air_pressure"
+            d.units = "Pa"
+            d.mesh = "mesh2"
+            d.location = loc
+            d[:] = np.arange(len(nc.dimensions[dims[loc]]), dtype=float)
     nc.close()
 
 
@@ -177,7 +207,17 @@ def obs_array(fetch):
         rows = [val(v, mk) for v, mk in zip(a.data.tolist(), mask.tolist())]
     else:
         rows = [[val(v, mk) for v, mk in zip(r, mr)] for r, mr in zip(a.data.tolist(), mask.tolist())]
-    return {"shape": list(a.shape), "rows": rows, "dtype": a.dtype.kind}
+    out = {"shape": list(a.shape), "rows": rows, "dtype": a.dtype.kind}
+    # overwrite what was returned, data and mask: internal state aliased by the returned
+    # array shows up in every later observation
+    try:
+        if a.size:
+            np.ma.getdata(a)[...] = 77
+            if isinstance(a, np.ma.MaskedArray) and a.mask is not np.ma.nomask:
+                a.mask[...] = False
+    except Exception:
+        pass
+    return out
 
 
 def norm_obs(x):
@@ -210,6 +250,7 @@ def observe(c, sub=None):
     if dt is not None:
         e = {"cell": dt.get_cell(None), "array": obs_array(lambda: dt.array)}
         e["has_start_index"] = dt.has_property("start_index")
+        e["rows"] = int(dt.shape[0])
         e["norm0"] = obs_array(lambda: dt.normalise().array)
         e["norm0b"] = obs_array(lambda: dt.normalise().normalise().array)
         e["norm1"] = obs_array(lambda: dt.normalise(start_index=1, remove_empty_columns=True).array)
@@ -220,7 +261,7 @@ def observe(c, sub=None):
         out["dt"] = e
     ccs = []
     for k, cc in sorted(c.cell_connectivities(todict=True).items()):
-        e = {"connectivity": cc.get_connectivity(None), "array": obs_array(lambda: cc.array)}
+        e = {"connectivity": cc.get_connectivity(None), "array": obs_array(lambda: cc.array), "rows": int(cc.shape[0])}
         e["norm0"] = obs_array(lambda: cc.normalise().array)
         e["norm0b"] = obs_array(lambda: cc.normalise().normalise().array)
         e["norm1"] = obs_array(lambda: cc.normalise(start_index=1).array)
@@ -235,8 +276,42 @@ def observe(c, sub=None):
             e["data"] = obs_array(lambda: a.array)
         if a.has_bounds():
             e["bounds"] = obs_array(lambda: a.bounds.array)
+            e["bounds_rows"] = int(a.bounds.shape[0])
         auxs.append(e)
     out["aux"] = auxs
+    return out
+
+
+def brief_obs(c):
+    """Arrays only: domain topology, cell connectivities, bounds of the auxiliary coordinates."""
+    out = {"axis_sizes": sorted(a.get_size() for a in c.domain_axes(todict=True).values())}
+    dt = c.domain_topology(default=None)
+    if dt is not None:
+        out["dt"] = obs_array(lambda: dt.array)
+    out["cc"] = [obs_array(lambda: cc.array) for k, cc in sorted(c.cell_connectivities(todict=True).items())]
+    out["bounds"] = {}
+    for k, a in sorted(c.auxiliary_coordinates(todict=True).items()):
+        if a.has_bounds():
+            out["bounds"][a.get_property("standard_name", "?")] = obs_array(lambda: a.bounds.array)
+    out["data"] = obs_array(lambda: c.array) if hasattr(c, "array") and c.has_data() else None
+    return out
+
+
+def field_ops(f, idx):
+    """A copy (observed after the original has been observed and overwritten) and a
+    subspace of the whole field along the cell axis."""
+    out = {}
+    try:
+        out["copy"] = brief_obs(f.copy())
+    except Exception as ex:
+        out["copy"] = {"err": errclass(ex), "msg": str(ex)[:160]}
+    if idx:
+        try:
+            g = f[idx]
+            out["fsub"] = brief_obs(g)
+            out["fsub_again"] = brief_obs(g)
+        except Exception as ex:
+            out["fsub"] = {"err": errclass(ex), "msg": str(ex)[:160]}
     return out
 
 
@@ -257,13 +332,15 @@ def do_case(s, fn):
         for c in cs:
             if mode == "field":
                 name = c.nc_get_variable("?")
-                loc = name[5:] if name.startswith("data_") else name
+                loc = name[5:] if name.startswith("data_") else ("2:" + name[6:] if name.startswith("data2_") else name)
             else:
                 dt = c.domain_topology(default=None)
                 cell = dt.get_cell(None) if dt is not None else None
                 loc = {"point": "node", "edge": "edge", "face": "face"}.get(cell, "none")
             try:
                 o = observe(c, (s.get("sub") or {}).get(loc) if mode == "field" else None)
+                if mode == "field" and not loc.startswith("2:"):
+                    o["ops"] = field_ops(c, (s.get("sub") or {}).get(loc))
             except Exception as ex:
                 o = {"observe_err": errclass(ex), "msg": str(ex)[:200]}
             if loc in res:
